@@ -11,14 +11,14 @@ COMP = "robotools/liquidhandling/composition.py"
 UT = "robotools/utils.py"
 
 MUTANTS = [
-    dict(id="tip-ge8-is-t8", expect=["C10"], edits=[("robotools/evotools/types.py", "    elif tip_int == 8:", "    elif tip_int >= 8:")]),
-    dict(id="tipmask-sum-no-set", expect=["C10"], edits=[(WU, "        tip = sum(set(tips))", "        tip = sum(tips)")]),
-    dict(id="evo-arm-2", expect=["C13"], count=2, edits=[(EVC, "    if not arm == 0 and not arm == 1:", "    if not arm == 0 and not arm == 1 and not arm == 2:")]),
+    dict(id="tip-ge8-is-t8", expect=["C10"], force=True, edits=[("robotools/evotools/types.py", "    elif tip_int == 8:", "    elif tip_int >= 8:")]),
+    dict(id="tipmask-sum-no-set", expect=["C10"], force=True, edits=[(WU, "        tip = sum(set(tips))", "        tip = sum(tips)")]),
+    dict(id="evo-arm-2", expect=["C13"], count=2, force=True, edits=[(EVC, "    if not arm == 0 and not arm == 1:", "    if not arm == 0 and not arm == 1 and not arm == 2:")]),
     dict(id="evo-list-volume-unchecked", expect=["C13"], edits=[(EVC, """            if max_volume is not None and vol > max_volume:
                 raise InvalidOperationError(f"Invalid volume: volume of {vol} exceeds max_volume.")""", """            if max_volume is not None and vol > max_volume and False:
                 raise InvalidOperationError(f"Invalid volume: volume of {vol} exceeds max_volume.")""")]),
     dict(id="evo-track-vol0", expect=["C13"], edits=[(EVW, """        labware.remove(wells_calc, volumes_calc, label)""", """        labware.remove(wells_calc, np.repeat(volumes_calc[:1], len(wells_calc)), label)""")]),
-    dict(id="evo-site-not-zero-based", expect=["C13"], count=3, edits=[(EVC, "    labware_position = (grid, site - 1)", "    labware_position = (grid, site)")]),
+    dict(id="evo-site-not-zero-based", expect=["C13"], force=True, edits=[(EVC, "    labware_position = (grid, site - 1)", "    labware_position = (grid, site)")]),
     dict(id="rack-type-33", expect=["C09"], edits=[(WU, 'if not isinstance(rack_type, str) or len(rack_type) > 32 or ";" in rack_type:', 'if not isinstance(rack_type, str) or len(rack_type) > 33 or ";" in rack_type:')]),
     dict(id="set-diti-after-wash", expect=["C09"], edits=[(BASE, 'if not (len(self) == 0 or self[-1][0] == "B"):', 'if not (len(self) == 0 or self[-1][0] in "BW"):')]),
     dict(id="comment-sep-first-line", expect=["C09"], edits=[(BASE, '        if ";" in comment:', '        if ";" in comment.split("\\n")[0]:')]),
